@@ -94,11 +94,40 @@ func VerifyDSWithWork(
 	return verifyDSWithWork(keyMap, parentDSSet, work)
 }
 
+// AnchoredKeysWithWork is VerifyDSWithWork that also returns the keys the
+// DS set vouches for: every DNSKEY of keyMap that matches a supported DS
+// record. These are the zone's secure entry points — the only keys whose
+// signature over the DNSKEY RRset connects that set to the parent (RFC 4035
+// §5.2). A key that is merely a member of the set is anchored to nothing
+// until the set itself has been validated by one of them.
+func AnchoredKeysWithWork(
+	keyMap map[uint16][]*dns.DNSKEY,
+	parentDSSet []dns.RR,
+	work DSDigestWork,
+) (map[uint16][]*dns.DNSKEY, bool, error) {
+	anchored := make(map[uint16][]*dns.DNSKEY)
+	unsupportedOnly, err := matchDSWithWork(keyMap, parentDSSet, work, anchored)
+	return anchored, unsupportedOnly, err
+}
+
 func verifyDSWithWork(
 	keyMap map[uint16][]*dns.DNSKEY,
 	parentDSSet []dns.RR,
 	work DSDigestWork,
 ) (bool, error) {
+	return matchDSWithWork(keyMap, parentDSSet, work, nil)
+}
+
+// matchDSWithWork checks keyMap against parentDSSet. With a nil collect it
+// stops at the first DS record a key matches; with a map it goes through
+// every supported DS record and files each matching key there.
+func matchDSWithWork(
+	keyMap map[uint16][]*dns.DNSKEY,
+	parentDSSet []dns.RR,
+	work DSDigestWork,
+	collect map[uint16][]*dns.DNSKEY,
+) (bool, error) {
+	anyMatched := false
 	dsRecords := uniqueSortedDSRecords(parentDSSet)
 	total := len(dsRecords)
 	supported := 0
@@ -153,13 +182,30 @@ func verifyDSWithWork(
 			candidateUsed++
 			if ok {
 				matched = true
+				if collect != nil {
+					already := false
+					for _, k := range collect[parentDS.KeyTag] {
+						if k == ksk {
+							already = true
+						}
+					}
+					if !already {
+						collect[parentDS.KeyTag] = append(collect[parentDS.KeyTag], ksk)
+					}
+				}
 				break
 			}
 			lastErr = ErrMismatchingDS
 		}
 		if matched {
-			return false, nil
+			if collect == nil {
+				return false, nil
+			}
+			anyMatched = true
 		}
+	}
+	if anyMatched {
+		return false, nil
 	}
 
 	if total == 0 {
@@ -361,9 +407,36 @@ func VerifyRRSIGWithWork(
 	return verifyRRSIGWithWork(signer, keys, msg, work)
 }
 
+// VerifyRRSIGAnchoredWithWork is VerifyRRSIGWithWork for a message that
+// carries the signer's own DNSKEY RRset: that RRset must verify under one
+// of anchored — the keys the parent's DS set (or the trust anchor) vouches
+// for — and every other RRset under any key of the set, as usual. Without
+// the distinction a DNSKEY set enlarged by a stranger's key and signed by
+// that key alone validated, because the stranger's key was "in the set".
+func VerifyRRSIGAnchoredWithWork(
+	signer string,
+	keys, anchored map[uint16][]*dns.DNSKEY,
+	msg *dns.Msg,
+	work SignatureWork,
+) (bool, error) {
+	if len(anchored) == 0 {
+		return false, ErrMissingKSK
+	}
+	return verifyRRSIGAnchored(signer, keys, anchored, msg, work)
+}
+
 func verifyRRSIGWithWork(
 	signer string,
 	keys map[uint16][]*dns.DNSKEY,
+	msg *dns.Msg,
+	work SignatureWork,
+) (bool, error) {
+	return verifyRRSIGAnchored(signer, keys, nil, msg, work)
+}
+
+func verifyRRSIGAnchored(
+	signer string,
+	keys, anchored map[uint16][]*dns.DNSKEY,
 	msg *dns.Msg,
 	work SignatureWork,
 ) (bool, error) {
@@ -517,8 +590,12 @@ func verifyRRSIGWithWork(
 		var lastErr error
 		verified := false
 		var rrsetUsed uint32
+		setKeys := keys
+		if anchored != nil && key.rtype == dns.TypeDNSKEY && key.name == signerZone {
+			setKeys = anchored
+		}
 		for _, sig := range sigList {
-			if err := verifyOneSigWithWork(keys, set, sig, work, &rrsetUsed); err != nil {
+			if err := verifyOneSigWithWork(setKeys, set, sig, work, &rrsetUsed); err != nil {
 				if IsWorkError(err) {
 					return false, err
 				}
